@@ -69,6 +69,12 @@ func parseV2(data string) (l *V2, err error) {
 		return nil, err
 	}
 
+	// The license starts with two length-prefixed byte slices, make sure the lengths are sane
+	// since the decoder allocates whatever they announce
+	if !validSliceLengths(raw, 2) {
+		return nil, fmt.Errorf("license: malformed v2 license")
+	}
+
 	// Unmarshal the license
 	var license V2
 	err = binary.Unmarshal(raw, &license)
